@@ -535,6 +535,17 @@ class CallMixin:
             self.hstore(s, r, 'elems', v.arrays[0])
             self.hstore(s, r, 'len', v.n)
             return [(r, s)]
+        if isinstance(v, SIterView) and v.what == 'keys' and getattr(self, 'list_class', None) is not None \
+                and self.list_class.e.sort() == v.ref.cls.k.sort():
+            # list(iter(d)) / list(d.keys()): a fresh list holding every key exactly once (the dict-iteration bijection facts)
+            seq = self.as_sequence(v, st)
+            s = st.copy()
+            for f in seq['facts']:
+                s = s.assume(f)
+            r = self.new_ref(s, self.list_class)
+            self.hstore(s, r, 'elems', seq['keys'])
+            self.hstore(s, r, 'len', seq['n'])
+            return [(r, s)]
         plc = getattr(self, 'pair_list_class', None)
         if isinstance(v, SGen) and plc is not None and len(v.arrays) == 2:
             # list(generator of pairs): a fresh list of n fresh 2-cell records (a block of n new addresses), record j = item j
@@ -583,6 +594,8 @@ class CallMixin:
         raise Unsupported('hasattr(%r)' % (obj,))
 
     def bi_iter(self, args, kwargs, st, node):
+        if isinstance(args[0], SRef) and args[0].cls.kind == 'dict':
+            return [(SIterView('keys', args[0]), st)]       # iter(d): the keys of d (only consumed by loops and list())
         if isinstance(args[0], SVal):
             return [(SVal(self.fresh(st, 'opaque_iter', Val)), st)]
         raise Unsupported('iter(%r)' % (args[0],))
